@@ -433,6 +433,11 @@ Inductive case :=
 | CStatic (cs : bool) (cfgs : list gcfg) (head : bool) (path ae : bytes)
           (data : option bytes) (sibs : list (bytes * bytes)) (errbody : bytes) (G P : obs)
 | CBig (same_status same_view ce_exact cl_fine : bool)   (* large bodies: judged by the harness *)
+(* a history of [npre] requests (error statuses after a partial compressed body, panics, aborted
+   downloads, ...) followed by concurrent requests through the same pooled writers; per response
+   of the burst: status 200 without transport error, the client view is the request's own body,
+   Content-Encoding exact, Content-Length fine (each decoded by the harness) *)
+| CBurst (npre : N) (resps : list (bool * bool * bool * bool))
 | CExt (p e : bytes)                                     (* path.Ext differential *)
 | CSkip.
 
@@ -454,6 +459,7 @@ Definition judge (c : case) : N :=
       verdict (agree_obs head mg G && agree_obs head mp P && agree_etag mg mp G P)
               (spec_common head ae G P && spec_static head ae data G)
   | CBig a b c d => verdict true (a && b && c && d)
+  | CBurst _ resps => verdict true (forallb (fun r => match r with (a, b, c, d) => a && b && c && d end) resps)
   | CExt p e => verdict (beq (path_ext p) e) true
   | CSkip => 0
   end.
